@@ -6,6 +6,10 @@ use std::fs::{File, OpenOptions};
 use std::io::{Read, Seek, SeekFrom, Write};
 use std::path::{Path, PathBuf};
 
+/// Upper bound for the body of one record. `append` refuses to write a larger
+/// record, so a larger length field in the file can only be garbage.
+const MAX_WAL_RECORD_LEN: u32 = 1024 * 1024; // 1MB
+
 #[derive(Debug, Clone, PartialEq)]
 pub enum WalRecord {
     BeginTx {
@@ -501,6 +505,10 @@ impl Wal {
         };
         let body = record.encode_body()?;
         let len = u32::try_from(body.len()).map_err(|_| Error::WalRecordTooLarge(u32::MAX))?;
+        if len > MAX_WAL_RECORD_LEN {
+            // The reader would not accept it back.
+            return Err(Error::WalRecordTooLarge(len));
+        }
         let crc = crc32(&body);
 
         let offset = file.metadata()?.len();
@@ -528,6 +536,23 @@ impl Wal {
         }
         written?;
         Ok(offset)
+    }
+
+    /// Cuts off whatever follows the last complete record (a torn write, garbage,
+    /// zero-filled space). Readers stop at such a tail, so records appended behind
+    /// it would never be seen again. Returns the resulting length of the log.
+    pub fn truncate_torn_tail(&mut self) -> Result<u64> {
+        let mut reader = WalReader::open(&self.path)?;
+        while reader.next_record()?.is_some() {}
+        let valid_len = reader.offset;
+        let Some(file) = self.file.as_mut() else {
+            return Err(Error::WalProtocol("wal file is closed"));
+        };
+        if file.metadata()?.len() > valid_len {
+            file.set_len(valid_len)?;
+            file.sync_data()?;
+        }
+        Ok(valid_len)
     }
 
     pub fn fsync(&mut self) -> Result<()> {
@@ -562,6 +587,9 @@ impl Wal {
                 let body = record.encode_body()?;
                 let len =
                     u32::try_from(body.len()).map_err(|_| Error::WalRecordTooLarge(u32::MAX))?;
+                if len > MAX_WAL_RECORD_LEN {
+                    return Err(Error::WalRecordTooLarge(len));
+                }
                 let crc = crc32(&body);
                 #[cfg(nervusdb_verif)]
                 {
@@ -759,9 +787,11 @@ impl WalReader {
             return Ok(None);
         };
 
-        const MAX_WAL_RECORD_LEN: u32 = 1024 * 1024; // 1MB
-        if len > MAX_WAL_RECORD_LEN {
-            return Err(Error::WalRecordTooLarge(len));
+        if len == 0 || len > MAX_WAL_RECORD_LEN {
+            // No record has an empty body or exceeds the limit `append` enforces:
+            // this is a zero-filled or garbage tail. Treat it as end-of-log, like
+            // a short read or a CRC mismatch.
+            return Ok(None);
         }
 
         let Some(crc) = self.try_read_u32()? else {
